@@ -103,7 +103,8 @@ type LineConfig struct {
 	// as a fraction of fragment height (default: 0.5)
 	LineHeightTolerance float64
 
-	// MinLineWidth is the minimum width for a valid line (default: 5 points)
+	// MinLineWidth is the width below which a line is considered very narrow
+	// (default: 5 points). Narrow lines are kept: no text is ever discarded.
 	MinLineWidth float64
 
 	// AlignmentTolerance is the tolerance for alignment detection (default: 10 points)
@@ -406,11 +407,10 @@ func (d *LineDetector) buildLines(lineGroups [][]text.TextFragment, pageWidth fl
 		// Calculate indentation (distance from left margin)
 		line.Indentation = line.BBox.X
 
-		// Skip lines that are too narrow
-		if line.BBox.Width < d.config.MinLineWidth {
-			continue
-		}
-
+		// A line narrower than MinLineWidth (a lone page number, a footnote
+		// mark, a single glyph of a scaled page) is still text of the page:
+		// it is kept. Discarding it here silently removed its fragments from
+		// every consumer of the line layout (reading order, paragraphs, text).
 		lines = append(lines, line)
 	}
 
